@@ -53,6 +53,7 @@ func (c *Compactor) majorCompaction(levels *LevelList, sar SAR) (*ChangeSet, err
 	// Go through all non-base levels from oldest to newest and pick tables to
 	// merge into base level.
 	var tablesToMerge []*Table
+pickTables:
 	for level := range levels.AscendLevels(1) {
 		tableIter := slices.SortedFunc(level.AllTables(), OrderOldToNew)
 
@@ -62,7 +63,9 @@ func (c *Compactor) majorCompaction(levels *LevelList, sar SAR) (*ChangeSet, err
 			sar = sar.WithCompactedBytes(int64(candidate.Size()))
 			tablesToMerge = append(tablesToMerge, candidate)
 			if sar.Percentage() < c.MaxSizeAmplificationPercent {
-				break
+				// Stop picking altogether: taking tables of the newer levels above
+				// while part of this level stays would put newer data beneath older.
+				break pickTables
 			}
 		}
 	}
